@@ -73,6 +73,10 @@ pub enum G {
     NoneOf(Vec<u32>),
     Select(Vec<u32>),
     CNext(u64),
+    /// harness-only: the same as `cnext`, written with `next_maybe` + `peek` + `span_since` / `InputRef::parse` / `InputRef::check`
+    CNextMaybe(u64),
+    CParse(Box<G>),
+    CCheck(Box<G>),
     CTake2(u64),
     CNothing,
     CFail(u64),
@@ -327,6 +331,9 @@ impl<'a> Rd<'a> {
             "anyref" => G::AnyRef,
             "selectref" => G::SelectRef(self.nat_list()?),
             "cnext" => G::CNext(self.nat()?),
+            "cnextmaybe" => G::CNextMaybe(self.nat()?),
+            "cparse" => G::CParse(self.bg()?),
+            "ccheck" => G::CCheck(self.bg()?),
             "ctake2" => G::CTake2(self.nat()?),
             "cnothing" => G::CNothing,
             "cfail" => G::CFail(self.nat()?),
